@@ -22,6 +22,7 @@ typedef struct Obj { uint32_t state; int key; int isval; uint32_t serial; } Obj;
 static const char *TNAME[3] = {"bst", "rb", "avl"};
 
 /* configuration */
+static int g_mag;      /* cfg bit 32: comparator returns magnitudes other than 1 */
 static int g_type, g_notif, g_withdata, g_desc, g_kn, g_vn;      /* g_kn / g_vn: a key / value notifier is installed (cfg bits 8 / 16 omit one of them) */
 static int g_props = 7;           /* bit0 C12, bit1 C13, bit2 C14 */
 static int U;                     /* key universe size */
@@ -105,6 +106,10 @@ static pint cmp3(pconstpointer a, pconstpointer b, ppointer data) {
 	if (x != cur_probe && x->state != ST_LIVE) viol(14, "compare-destroyed", "comparator shown non-live object (state %x key %d)", x->state, x->key);
 	if (y != cur_probe && y->state != ST_LIVE) viol(14, "compare-destroyed", "comparator shown non-live object (state %x key %d)", y->state, y->key);
 	if (recording) { if (pathlen < pathcap) path[pathlen] = node->key; pathlen++; }
+	if (g_mag) {     /* a total order whose results are not limited to -1/0/1 (like strcmp or a key difference): only the sign carries meaning */
+		int d = x->key < y->key ? -(2 + (y->key - x->key) % 1000) : x->key > y->key ? 2 + (x->key - y->key) % 1000 : 0;
+		return g_desc ? -d : d;
+	}
 	if (g_desc) return x->key < y->key ? 1 : x->key > y->key ? -1 : 0;
 	return x->key < y->key ? -1 : x->key > y->key ? 1 : 0;
 }
@@ -622,7 +627,7 @@ int main(int argc, char **argv) {
 	vh_rng r; double t0 = vh_now(); int i, j;
 	g_type = (int)vh_argi(argc, argv, "--type", 1);
 	g_props = (int)vh_argi(argc, argv, "--props", 7);
-	g_notif = cfg & 1; g_withdata = (cfg >> 1) & 1; g_desc = (cfg >> 2) & 1; g_kn = g_notif && !(cfg & 8); g_vn = g_notif && !(cfg & 16);
+	g_notif = cfg & 1; g_withdata = (cfg >> 1) & 1; g_desc = (cfg >> 2) & 1; g_kn = g_notif && !(cfg & 8); g_vn = g_notif && !(cfg & 16); g_mag = (cfg & 32) != 0;
 	U = (int)vh_argi(argc, argv, "--U", 4);
 	if (!strcmp(mode, "perm")) U = n;
 	if (!strcmp(mode, "random") && U < 2 * maxn) U = 2 * maxn;
